@@ -504,9 +504,15 @@ class Interp:
         if isinstance(f, PyClass):
             return self.instantiate(f, args, kwargs)
         if isinstance(f, Builtin):
-            if f.pass_interp:
-                return f.fn(self, *args, **kwargs)
-            return f.fn(*args, **kwargs)
+            try:
+                if f.pass_interp:
+                    return f.fn(self, *args, **kwargs)
+                return f.fn(*args, **kwargs)
+            except TypeError as e:
+                if 'argument' in str(e) and ('positional' in str(e) or
+                                             'keyword' in str(e)):
+                    raise Unsupported('model %s: %s' % (f.name, e))
+                raise
         if isinstance(f, ExcClass):
             return ExcObj(f, args)
         if isinstance(f, ExtValue):
